@@ -6,6 +6,7 @@ import (
 	"go/constant"
 	"go/token"
 	"go/types"
+	"regexp"
 	"sort"
 	"strings"
 
@@ -375,11 +376,16 @@ func ruleRefusals(c *Ctx) []Ob {
 	c.guard(s, pkgDefs, rf, "non-optional-pointer", []string{"rx!=Optional", "pt.T==T_pointer", "pt.V.T!=T_struct"}, "non-optional scalar pointer", "a required *i32 would be encoded through a possibly nil pointer")
 	c.guard(s, pkgDefs, rf, "type-parse-error", []string{"ParseType", "err!=nil"}, "type annotation errors are propagated", "")
 	// ---- entry points
-	c.guard(s, pkgReflect, "Decode", "decode:not-pointer", []string{"rv.Kind()!=reflect.Ptr"}, "DecodeObject argument that is not a pointer", "")
-	c.guard(s, pkgReflect, "Decode", "decode:nil-pointer", []string{"rv.IsNil()"}, "DecodeObject nil pointer", "")
-	c.guard(s, pkgReflect, "Decode", "decode:not-struct", []string{"rv.Elem().Kind()!=reflect.Struct"}, "DecodeObject pointer to a non-struct", "")
-	c.guard(s, pkgReflect, "createStructDesc", "create:invalid", []string{"!rv.IsValid()"}, "nil interface argument", "EncodeObject(buf, nil, nil) would panic inside reflect")
-	c.guard(s, pkgReflect, "createStructDesc", "create:not-struct", []string{"rt.Kind()!=reflect.Struct"}, "argument that is neither a struct nor a pointer to one", "")
+	kPtr, _ := c.constOf("reflect", "Ptr")
+	kStruct, _ := c.constOf("reflect", "Struct")
+	re := func(f string, a ...interface{}) *regexp.Regexp { return regexp.MustCompile(fmt.Sprintf(f, a...)) }
+	decodeFn := c.SSA[pkgReflect].Func("Decode")
+	createFn := c.SSA[pkgReflect].Func("createStructDesc")
+	c.entryGuard(s, decodeFn, "decode:not-pointer", re(`^Kind\(ValueOf\(\w+\)\)==%d$`, kPtr), "DecodeObject argument that is not a pointer", "")
+	c.entryGuard(s, decodeFn, "decode:nil-pointer", re(`^IsNil\(ValueOf\(\w+\)\)=false$`), "DecodeObject nil pointer", "")
+	c.entryGuard(s, decodeFn, "decode:not-struct", re(`^Kind\(Elem\(ValueOf\(\w+\)\)\)==%d$`, kStruct), "DecodeObject pointer to a non-struct", "")
+	c.entryGuard(s, createFn, "create:invalid", re(`^IsValid\(\w+\)=true$`), "nil interface argument", "EncodeObject(buf, nil, nil) would panic inside reflect")
+	c.entryGuard(s, createFn, "create:not-struct", re(`^Kind\(.+\)==%d$`, kStruct), "argument that is neither a struct nor a pointer to one", "")
 	// the argument checks of createStructDesc come before its first cache lookup (a lookup keyed by the element type of a
 	// ** pointer would otherwise hit the entry of *T)
 	if fd, _ := c.funcDecl(pkgReflect, "createStructDesc"); fd != nil {
@@ -400,7 +406,7 @@ func ruleRefusals(c *Ctx) []Ob {
 		})
 		s.check(firstGet.IsValid() && lastGuard.IsValid() && lastGuard < firstGet, "create:guard-before-lookup", c.Pos(fd.Pos()), "kind checks precede the descriptor lookup", "createStructDesc consults or fills the descriptor cache before it has established that the argument is a struct or a pointer to one: a **T argument can be served the descriptor registered for *T")
 	}
-	c.guard(s, pkgReflect, "newStructDesc", "newdesc:not-struct", []string{"t.Kind()!=reflect.Struct"}, "descriptor of a non-struct", "")
+	c.entryGuard(s, c.SSA[pkgReflect].Func("newStructDesc"), "newdesc:not-struct", re(`^Kind\(\w+\)==%d$`, kStruct), "descriptor of a non-struct", "")
 	// Append returns the error before producing bytes; EncodedSize panics with it
 	if fn := c.SSA[pkgReflect].Func("Append"); fn != nil {
 		good := false
@@ -645,6 +651,22 @@ func ruleNilDeref(c *Ctx) []Ob {
 								if eq && kv != 0 && req == "valid" {
 									good = true
 								}
+							}
+						}
+					}
+				}
+				if !good {
+					// the same tests made by a validation helper (err == nil of a function whose nil returns are all guarded)
+					ud := descAccessor(call.Call.Args[0], nil, 0)
+					for f := range blockFacts(b) {
+						if f == "IsValid("+ud+")=true" && req == "valid" {
+							good = true
+						}
+						if strings.HasPrefix(f, "Kind("+ud+")==") {
+							var kv int64
+							fmt.Sscan(f[len("Kind("+ud+")=="):], &kv)
+							if kv == ptrKind || kv != 0 && req == "valid" {
+								good = true
 							}
 						}
 					}
